@@ -210,7 +210,14 @@ def run(report, tier, seed):
             with numpoly.global_options(retain_coefficients=g_rc, retain_names=g_rn):
                 # an explicit allocation (any number >= the number of rows) must not change anything (D36)
                 akw = {"allocation": rng.choice([N, N + 1, 2 * N - 1, 2 * N, 2 * N + 3])} if rng.random() < 0.35 else {}
+                if rng.random() < 0.3:
+                    # an explicit coefficient dtype beside the ones the compiled copy kernel knows (the values fit)
+                    akw["dtype"] = rng.choice(["float32", "int32", "int16", "complex64", "float16"]
+                                              + ([] if any(v < 0 for c in cols for v in c) else ["uint8", "uint16"]))
                 p = numpoly.polynomial_from_attributes(rows, arrs, tnames, retain_coefficients=e_rc, retain_names=e_rn, **akw)
+                if "dtype" in akw and p.dtype != numpy.dtype(akw["dtype"]):
+                    viol.append(("dtype:from_attributes", f"polynomial_from_attributes(..., dtype={akw['dtype']}) returned dtype {p.dtype}",
+                                 {"rows": rows, "cols": cols, "names": names, "dtype": akw["dtype"]}))
             if not rc and any(any(r) and not any(c) for r, c in zip(rows, cols)) and len(rows) == len(cols):
                 kept = [tuple(r) for r in p.exponents.tolist()]
                 if any(tuple(r) in kept for r, c in zip(rows, cols) if any(r) and not any(c)) and len(set(map(tuple, rows))) == len(rows):
